@@ -255,6 +255,17 @@ func runCrashWorkload(cfg CrashCfg, seed uint64, cas int, res *CrashRes) *crashW
 					op = &Op{K: OpWrite, H: o.FH, Off: oo.Size - 2*BlockSize - uint64(rng.Intn(BlockSize)), Count: n, DataLen: n, Uid: s.nextUid, Stable: 1 + rng.Intn(2)}
 				}
 			}
+		case i%17 == 12:
+			// a sparse file is truncated by more than one transaction can free
+			// (the background shrinker is started although there is nothing to
+			// free, so the trace stays short); unstable data was written just
+			// before: the acknowledgement of the truncation is a stable one
+			if o := s.pickObj(KReg); o != nil && o.Size < 64*BlockSize {
+				doOne(&Op{K: OpSetattr, H: o.FH, SetSize: true, Size: o.Size + uint64(560+rng.Intn(40))*BlockSize})
+				s.nextUid++
+				doOne(&Op{K: OpWrite, H: o.FH, Off: uint64(rng.Intn(3)) * BlockSize, Count: 700, DataLen: 700, Uid: s.nextUid, Stable: 0})
+				op = &Op{K: OpSetattr, H: o.FH, SetSize: true, Size: uint64(rng.Intn(2 * BlockSize))}
+			}
 		case cfg.WriteHeavy && i%13 == 6:
 			// a request whose transaction the journal rejects (too large), in the
 			// middle of unstable writes: it must fail without side effects on what
